@@ -25,6 +25,7 @@ FLOORS["class:construct-refused-while-writing"] = 200
 FLOORS["hybrid_array_limited_view"] = 100
 FLOORS["union_object_at_offset_without_buffer"] = 300
 FLOORS["hybrid_move_or_copy_to_offset_without_buffer"] = 200
+FLOORS["non_member_as_one_tuple"] = 100
 FLOORS.update({"negative_index_assignments": 100, "non_member_from_same_family": 50, "allocations_after_refusal": 5000,
                "hybrid_copy_with_contradictory_destination": 300, "refused_construction_at_explicit_offset": 100})
 FLOORS.update({"multibyte_too_long_strings": 300, "misuse_value_as_xobject": 300})
@@ -416,6 +417,12 @@ def _plan(cls_, rng, c, allnodes, env):
         else:
             val = ("NoSuchMember", {"zz": 1})
             d = "(unknown type name, data)"
+
+        if not (isinstance(val, tuple) and len(val) == 2) and rng.random() < 0.35:
+            # the one-element tuple form (the form in which a union constructor hands its argument on)
+            val = (val,)
+            d += ", given as a 1-tuple"
+            _W[0].count("non_member_as_one_tuple")
 
         def fn(base, p=p, val=val):
             set_path(base, p, val)
